@@ -116,6 +116,16 @@ fn c02_pmh2_step<const M: usize>(weight: f64) {
 
 #[kani::proof]
 #[kani::unwind(5)]
+fn c02_pmh2_step_m2_w1() {
+    c02_pmh2_step::<2>(1.0);
+}
+#[kani::proof]
+#[kani::unwind(6)]
+fn c02_pmh2_step_m3_w1() {
+    c02_pmh2_step::<3>(1.0);
+}
+#[kani::proof]
+#[kani::unwind(5)]
 fn c02_pmh2_step_m2() {
     c02_pmh2_step::<2>(any_pow2_weight());
 }
@@ -133,4 +143,24 @@ fn c02_pmh2_step_m4() {
 #[kani::unwind(6)]
 fn c02_pmh2_step_m3_w07() {
     c02_pmh2_step::<3>(0.7);
+}
+
+// C12 part 1 — two instances built by `new`, same weighted item, identical signatures and registers
+fn c12_pmh2_two<const M: usize>() {
+    let mut a = Pmh2::new(M, 0);
+    let mut b = Pmh2::new(M, 0);
+    let id: u64 = kani::any();
+    let w = any_pow2_weight();
+    a.hash_item(id, w);
+    b.hash_item(id, w);
+    for p in 0..M {
+        assert!(a.get_signature()[p] == b.get_signature()[p]);
+        assert!(beq(a.maxvaluetracker.get_value(p), b.maxvaluetracker.get_value(p)));
+    }
+    kani::cover!(a.get_signature()[0] == id && id != 0, "witness");
+}
+#[kani::proof]
+#[kani::unwind(5)]
+fn c12_pmh2_m2() {
+    c12_pmh2_two::<2>();
 }
